@@ -28,6 +28,8 @@ type c5Gen struct {
 	// State: counter | helper | refs | docecho | plain
 	State []string `json:"state"`
 	Refs  []string `json:"refs,omitempty"`
+	// RotRefs: two packages that compete for one local import name; packages with an even path length reference both, the others only the second
+	RotRefs []string `json:"rotrefs,omitempty"`
 }
 
 type c5Case struct {
@@ -38,6 +40,7 @@ type c5Case struct {
 }
 
 var c5ClashRefs = []string{
+	"example.com/x/codec.T", "example.com/y/codec.T",
 	"text/template.Template", "html/template.Template", "github.com/foo/bar.T", "github.com/other/bar.T", "k8s.io/api/core/v1.Pod", "k8s.io/api/apps/v1.Deployment",
 	"example.com/a/util.X", "example.com/b/util.X", "fmt.Stringer", "math/rand.Rand", "crypto/rand.Reader",
 }
@@ -48,7 +51,7 @@ func genC05(t *rapid.T) c5Case {
 	names := rapid.SampledFrom([][]string{{"g"}, {"g", "gen"}, {"deep", "a"}, {"x1"}, {"doc", "ab"}}).Draw(t, "gens")
 	for _, n := range names {
 		g := c5Gen{Name: n, Mode: rapid.SampledFrom([]string{"fixed", "new"}).Draw(t, "mode")}
-		for _, st := range []string{"counter", "helper", "refs", "docecho"} {
+		for _, st := range []string{"counter", "helper", "refs", "docecho", "memo", "rotrefs", "docforeign"} {
 			if rapid.Bool().Draw(t, "state-"+st) {
 				g.State = append(g.State, st)
 			}
@@ -59,13 +62,19 @@ func genC05(t *rapid.T) c5Case {
 		for i := 0; i < rapid.IntRange(1, 3).Draw(t, "nrefs"); i++ {
 			g.Refs = append(g.Refs, rapid.SampledFrom(c5ClashRefs).Draw(t, "ref"))
 		}
+		g.RotRefs = rapid.SampledFrom([][]string{
+			{"example.com/x/codec.T", "example.com/y/codec.T"}, {"github.com/foo/bar.T", "github.com/other/bar.T"}, {"example.com/a/util.X", "example.com/b/util.X"},
+			{"example.com/y/codec.T", "example.com/x/codec.T"},
+		}).Draw(t, "rotpair")
 		c.Gens = append(c.Gens, g)
 	}
-	switch rapid.IntRange(0, 3).Draw(t, "real") {
+	switch rapid.IntRange(0, 4).Draw(t, "real") {
 	case 0:
 		c.Real = []string{"runtimedoc"}
 	case 1:
 		c.Real = []string{"defaulter", "runtimedoc"}
+	case 2:
+		c.Real = []string{"deepcopy"}
 	}
 	// selections: singletons, pairs, all orders, and All through some entry
 	nsel := rapid.IntRange(2, 5).Draw(t, "nsel")
@@ -102,6 +111,16 @@ func (g c5Gen) script(pkgOrder map[string]int) *script.Script {
 			pieces = append(pieces, script.Piece{Kind: "t", Text: text, Refs: g.Refs})
 		case "docecho":
 			pieces = append(pieces, script.Piece{Kind: "docecho"})
+		case "memo":
+			pieces = append(pieces, script.Piece{Kind: "block", Text: "\nvar _$G_$T_memo = $M // distinct types seen by this generator instance\n"})
+		case "rotrefs":
+			text := "\n"
+			for i := range g.RotRefs {
+				text += fmt.Sprintf("var _$G_$T_rot%d @R%d\n\n", i, i)
+			}
+			pieces = append(pieces, script.Piece{Kind: "t", Text: text, Refs: g.RotRefs, Rotate: true})
+		case "docforeign":
+			pieces = append([]script.Piece{{Kind: "docforeign"}}, pieces...)
 		}
 	}
 	s.Default = script.Action{Render: pieces}
@@ -226,7 +245,7 @@ func c5NonTrivial(c c5Case) bool {
 	for _, f := range c5Features(c) {
 		fs[f] = true
 	}
-	return fs["multi-package-selection"] && (fs["state-counter"] || fs["state-helper"] || fs["state-refs"] || len(c.Real) > 0)
+	return fs["multi-package-selection"] && (fs["state-counter"] || fs["state-helper"] || fs["state-refs"] || fs["state-memo"] || fs["state-rotrefs"] || fs["state-docforeign"] || len(c.Real) > 0)
 }
 
 func TestC05(t *testing.T) {
